@@ -355,7 +355,7 @@ pub fn run(ctx: &Ctx) -> Report {
     );
     rep.extra.insert("exhaustive_parts".into(), json!(["raw string contents of <=4 units over a 12-unit alphabet: 22 621 literals", "illegal character x statement pair grid"]));
     let seed = ctx.seed;
-    let cases = ctx.pick(200_000u32, 6_000_000u32) / ctx.shards as u32;
+    let cases = ctx.pick(2_000_000u32, 40_000_000u32) / ctx.shards as u32;
     let shards = ctx.shards;
     let mut rep = par_shards(ctx.shards, rep, move |shard, r| {
         // (1) exhaustive strings, split over the shards
